@@ -44,6 +44,7 @@ class Graph:
         self.evals = []
         self.dirty = set()
         self.nfresh = 0
+        self.cached = {}
         self.viol = []
         getattr(self, "build_" + shape)()
         self.dirty = set(n for n, s in self.spec.items() if s[0] != "leaf")
@@ -209,6 +210,10 @@ class Graph:
             self.read(op[1], tag + ":pre-freeze")
             self.nodes[op[1]].freeze()
             self.frozen[op[1]] = self.expect(op[1])
+        elif kind == "freeze_stale":
+            # freeze without a read first: "the value it had when it was frozen" is the value of its last evaluation
+            self.nodes[op[1]].freeze()
+            self.frozen[op[1]] = self.cached[op[1]]
         elif kind == "unfreeze":
             self.nodes[op[1]].unfreeze()
             if op[1] in self.frozen:
@@ -301,6 +306,16 @@ class Graph:
         self.cx.concrete("%s:read-%s:only-if-input-changed" % (tag, name), not needless, info="re-evaluated although no input was assigned: %r" % sorted(needless))
         for n in set(ev):
             self.dirty.discard(n)
+        # a read brings the node and everything below it up to date (frozen nodes keep their value)
+        todo, seen = [name], set()
+        while todo:
+            n = todo.pop()
+            if n in seen or n not in self.spec:
+                continue
+            seen.add(n)
+            self.cached[n] = self.expect(n)
+            if n not in self.frozen:
+                todo.extend(self._kids(n))
 
     def read_all(self, tag):
         for n in list(self.spec):
@@ -334,6 +349,9 @@ def sc_cycle(cx, which):
         a, b = "f", "g"
     elif which == "self":
         a, b = "g", "g"
+    elif which == "mixed":
+        # the rejected list also names an existing child: it must stay a child (and keep propagating assignments)
+        a, b = "f", ("p", "g")
     else:
         N.add_alias("h", alias_for="g")
         a, b = "f", "h"
@@ -348,7 +366,10 @@ def sc_cycle(cx, which):
         return
     cx.eq("cycle-%s:read-after-rejection" % which, after, 3 * (2 * v + 1) + 2)
     kids = [c.name for c in N.get(a).get_children()]
-    cx.concrete("cycle-%s:children-unchanged" % which, b not in kids or (a == "f" and False), info="children of %s after the rejected call: %r" % (a, kids))
+    cx.concrete("cycle-%s:children-unchanged" % which, kids == (["p"] if a == "f" else ["f"]), info="children of %s after the rejected call: %r" % (a, kids))
+    w = cx.real("w")
+    N.get("p").value = w
+    cx.eq("cycle-%s:second-assignment-propagates" % which, N.get("g").value, 3 * (2 * w + 1) + 2)
 
 
 def sc_fallback(cx):
@@ -520,7 +541,13 @@ def scenarios(tier, seed):
             for mid in ([("set", leaf)], [("set", leaf), ("read", node)], [("read", node), ("set", leaf)]):
                 seq = tuple([("readall",), ("freeze", node)] + mid + [("unfreeze", node)])
                 S.append(Scenario("history/%s/%s" % (shape, ",".join(_nm(o) for o in seq)), sc_history, family="history/%s/freeze-set-unfreeze" % shape, params=dict(shape=shape, ops=seq)))
-    for w in ("direct", "self", "alias"):
+    for shape, lst in FZ.items():
+        for node, leaf in lst:
+            parents = [n for n, sp in Graph.__dict__.items() if False]
+            for rd in (True, False):
+                seq = [("readall",), ("set", leaf), ("freeze_stale", node)] + ([("readall",)] if rd else []) + [("unfreeze", node)]
+                S.append(Scenario("history/%s/%s" % (shape, ",".join(_nm(o) for o in seq)), sc_history, family="history/%s/freeze-stale-unfreeze" % shape, params=dict(shape=shape, ops=tuple(seq))))
+    for w in ("direct", "self", "alias", "mixed"):
         S.append(Scenario("cycle/%s" % w, sc_cycle, family="cycle", params=dict(which=w)))
     S.append(Scenario("fallback/basic", sc_fallback))
     for shape, ops in IND_OPS.items():
